@@ -184,6 +184,30 @@ mod verif_c16_keys {
         }
     }
 
+    /// the `GetRemoteKeys` future (what `ArcKeys::get_remote_keys` / `ArcZeroRttKeys::get_decrypt_keys`
+    /// return): polls the slot under its Mutex.  Instantiated at K = u8 on a stack Mutex (cheap).
+    #[kani::proof]
+    #[kani::unwind(2)]
+    fn get_remote_keys_future_contract() {
+        let a = Task::new();
+        let w = a.waker();
+        let mut cx = Context::from_waker(&w);
+        let m: Mutex<KeysState<u8>> = Mutex::new(KeysState::Pending(None));
+        let mut fut = GetRemoteKeys(&m);
+        assert!(Pin::new(&mut fut).poll(&mut cx).is_pending(), "C16.keys.future.pending_before_keys");
+        assert!(matches!(&*m.lock().unwrap(), KeysState::Pending(Some(x)) if a.is(x)), "C16.keys.future.pending_stores_callers_waker");
+        let k: u8 = kani::any();
+        if kani::any() {
+            m.lock().unwrap().set(k);
+            assert!(a.wakes() == 1, "C16.keys.future.set_wakes_sleeper");
+            assert!(Pin::new(&mut fut).poll(&mut cx) == core::task::Poll::Ready(Some(k)), "C16.keys.future.woken_task_gets_keys");
+        } else {
+            let _ = m.lock().unwrap().invalid();
+            assert!(a.wakes() == 1, "C16.keys.future.invalid_wakes_sleeper");
+            assert!(Pin::new(&mut fut).poll(&mut cx) == core::task::Poll::Ready(None), "C16.keys.future.woken_task_sees_invalidation");
+        }
+    }
+
     // ---- the shared wrappers, on the real key types (dummy key objects) -------------------------------
 
     struct DummyKey(usize);
@@ -221,7 +245,7 @@ mod verif_c16_keys {
 
     /// `ArcKeys`: get_remote_keys() future + set_keys / invalid through the Mutex.
     #[kani::proof]
-    #[kani::unwind(3)]
+    #[kani::unwind(2)]
     fn arc_keys_contract() {
         let a = Task::new();
         let w = a.waker();
@@ -251,7 +275,7 @@ mod verif_c16_keys {
 
     /// `ArcZeroRttKeys` (server side waits, client side never does).
     #[kani::proof]
-    #[kani::unwind(3)]
+    #[kani::unwind(2)]
     fn arc_zero_rtt_keys_contract() {
         let a = Task::new();
         let w = a.waker();
@@ -274,8 +298,26 @@ mod verif_c16_keys {
     /// `ArcOneRttKeys`: poll registers, `invalid` wakes.  (`set_keys` needs `rustls::quic::Secrets`, which
     /// has no public constructor -- unverified, see unit.json.)
     #[kani::proof]
-    #[kani::unwind(3)]
+    #[kani::unwind(2)]
     fn arc_one_rtt_keys_contract() {
+        let a = Task::new();
+        let w = a.waker();
+        let mut cx = Context::from_waker(&w);
+        let keys = ArcOneRttKeys::new_pending();
+        let mut fut = keys.get_remote_keys();
+        assert!(Pin::new(&mut fut).poll(&mut cx).is_pending(), "C16.keys.one_rtt.pending_before_keys");
+        assert!(a.wakes() == 0 && a.live() == 2, "C16.keys.one_rtt.pending_stores_callers_waker");
+        assert!(keys.invalid().is_none(), "C16.keys.one_rtt.sup.invalid_returns_none_when_unset");
+        assert!(a.wakes() == 1, "C16.keys.one_rtt.invalid_wakes_sleeper");
+        assert!(matches!(Pin::new(&mut fut).poll(&mut cx), core::task::Poll::Ready(None)), "C16.keys.one_rtt.woken_task_sees_invalidation");
+        assert!(a.live() == 1, "C16.keys.one_rtt.sup.no_handle_leak");
+    }
+
+    /// the same slot, the remaining read-only operations and a spurious re-poll (thorough tier: every
+    /// Mutex round trip costs CBMC ~30 s here because of the `dyn` key objects' drop glue candidates).
+    #[kani::proof]
+    #[kani::unwind(2)]
+    fn arc_one_rtt_keys_repoll() {
         let a = Task::new();
         let w = a.waker();
         let mut cx = Context::from_waker(&w);
@@ -284,18 +326,15 @@ mod verif_c16_keys {
         assert!(Pin::new(&mut fut).poll(&mut cx).is_pending(), "C16.keys.one_rtt.pending_before_keys");
         assert!(matches!(&*keys.lock_guard(), OneRttKeysState::Pending(Some(x)) if a.is(x)), "C16.keys.one_rtt.pending_stores_callers_waker");
         assert!(Pin::new(&mut fut).poll(&mut cx).is_pending(), "C16.keys.one_rtt.repoll_pending");
+        assert!(matches!(&*keys.lock_guard(), OneRttKeysState::Pending(Some(x)) if a.is(x)), "C16.keys.one_rtt.repoll_keeps_callers_waker");
         assert!(a.wakes() == 0, "C16.keys.one_rtt.poll_wakes_nobody");
         assert!(keys.get_local_keys().is_none() && keys.remote_keys().is_none(), "C16.keys.one_rtt.sup.no_keys_before_set");
-        assert!(keys.invalid().is_none(), "C16.keys.one_rtt.sup.invalid_returns_none_when_unset");
-        assert!(a.wakes() == 1, "C16.keys.one_rtt.invalid_wakes_sleeper");
-        assert!(matches!(Pin::new(&mut fut).poll(&mut cx), core::task::Poll::Ready(None)), "C16.keys.one_rtt.woken_task_sees_invalidation");
-        assert!(a.live() == 1, "C16.keys.one_rtt.sup.no_handle_leak");
     }
 
     /// caller obligations of `ArcOneRttKeys` made explicit: `invalid()` on an already invalid slot hits
     /// `unreachable!()` (so it must be called at most once), and a second waiting task hits `unreachable!`.
     #[kani::proof]
-    #[kani::unwind(3)]
+    #[kani::unwind(2)]
     #[kani::should_panic]
     fn one_rtt_invalid_twice_panics() {
         let keys = ArcOneRttKeys::new_pending();
@@ -304,7 +343,7 @@ mod verif_c16_keys {
     }
 
     #[kani::proof]
-    #[kani::unwind(3)]
+    #[kani::unwind(2)]
     #[kani::should_panic]
     fn one_rtt_second_task_panics() {
         let (a, b) = (Task::new(), Task::new());
